@@ -114,6 +114,7 @@ CHECKS = {
         "(forward and backward), for eight container shapes x base / appended field lists x extents x all values. Every "
         "state is replayed with both revisions materialised as D.1.0 / D.1.1 in one namespace and one process.",
    note="Container shapes: field, field between fields, fixed / variable array element followed by a field, union variant "
+        "(every framed cross-read is repeated with three tails appended behind the announced payload) " 
         "followed by a field, inside another delimited type, union at top, the revision itself with its header. Quick uses "
         "the lean value sets (8k states), thorough the rich ones (730k states).",
    technique="TLA+ spec of cross-revision reads checked by TLC; every state replayed through serialize/deserialize of both revisions",
@@ -155,6 +156,7 @@ CHECKS = {
         "replacement texts; projections must be identical; the recorded text loads of every run must lie inside the closure and "
         "the recorded scope of the cross-definition checks must be direct / direct + transitive.",
    note="Replacements: garbage, failing assertion, missing @sealed, @print, service instead of message, undefined reference. "
+        "A fixed family adds unreferenced files whose NAME carries a target's port-ID or equals a referenced name only after Unicode case folding, with five texts, both entry points and both values of allow_unregulated_fixed_port_id. " 
         "Also an empty file and a file of line breaks only. " 
         "Malformed file names in lookup directories are outside (inspected at listing time).",
    technique="TLA+ closure invariants checked by TLC; paired runs of every configuration against the implementation",
@@ -179,6 +181,7 @@ CHECKS = {
         "transcribed (NeverWrongIdentity, PromisedSucceeds hold on the model; as-found configs give the F8 counterexamples) and the "
         "model's outcome is compared with the real outcome for every combination.",
    note="The tree lives below a directory named like the root in another letter case; nested files are read again with the inner "
+        "(roots may also be two bare names - the nested namespace's listed before / after the root's; thorough: four names, six versions, nine port-IDs) " 
         "directory as root in the same process. One root with a second root before / after; root names unique except for one nested directory named like the root. "
         "int() leniency in file names is not judged. Messages and services: the request / response part of a service carries the "
         "service's name extended by one component, its version and back pointers, and no port-ID (PartsShape).",
